@@ -269,19 +269,37 @@ def main(tier, replay=None):
     rng = random.Random(run.seed)
     probes = all_probes()
     traces = []
+    state = {'n': 0, 'part': 0, 'samples': []}
+    CH = 3000
+
+    def emit(tr_fn):
+        """replay one history and validate in chunks: nothing but the current chunk is kept in memory"""
+        state['n'] += 1
+        t = tr_fn(state['n'])
+        if len(state['samples']) < 8:
+            state['samples'].append({'case': t['case']})
+        traces.append(t)
+        if len(traces) >= CH:
+            flush()
+
+    def flush():
+        if traces:
+            core.validate_hist(run, traces, 'p%d' % state['part'], consts, engine='c09')
+            state['part'] += 1
+            del traces[:]
+
     midset = [(p, a) for p in ('p1', 'p2') for a in (F.var('va'), F.var('vb'), F.call('FA', F.num('2')),
                                                      F.call('SUM', F.num('2'), F.num('3')))]
     for c in hists:
         pr = probes if not quick else rng.sample(probes, 10)
         mid = [midset if not quick else rng.sample(midset, 3) for _ in c['hist']]
-        traces.append(replay_case(lib, len(traces) + 1, {'hist': c['hist'], 'probes': pr, 'mid': mid}))
+        emit(lambda tid: replay_case(lib, tid, {'hist': c['hist'], 'probes': pr, 'mid': mid}))
     for i in range(1500 if quick else 30000):
-        traces.append(replay_case(lib, len(traces) + 1, random_case(rng, i)))
-    traces.append(shadow_trace(lib, names, len(traces) + 1))
-    traces.append(resolve_trace(lib, names, len(traces) + 1))
-    CH = 3000
-    for k in range(0, len(traces), CH):
-        core.validate_hist(run, traces[k:k + CH], 'p%d' % (k // CH), consts, engine='c09')
+        rc = random_case(rng, i)
+        emit(lambda tid: replay_case(lib, tid, rc))
+    emit(lambda tid: shadow_trace(lib, names, tid))
+    emit(lambda tid: resolve_trace(lib, names, tid))
+    flush()
     run.exhaustive = True
-    run.samples = [{'case': traces[5]['case']}, {'case': traces[-3]['case']}]
+    run.samples = state['samples'][4:6]
     return run.finish()
